@@ -1,3 +1,8 @@
-import JmesVerif.Model.Slice
-import JmesVerif.Spec.PySlice
-import JmesVerif.Lemmas.Slice
+import JmesVerif.Props.C03
+import JmesVerif.Props.C07
+import JmesVerif.Props.C10
+import JmesVerif.Lemmas.Paren
+import JmesVerif.Spec.GrammarCheck
+import JmesVerif.Generated.Lbp
+import JmesVerif.Generated.Signatures
+import JmesVerif.Generated.Features
